@@ -59,6 +59,9 @@ claimed = {
  "C17": dict(
    text="Lean 4 proof: a configuration is accepted iff Model, MemSpec and AsmType are documented values (C17_accept); building fails iff some IoAddrConfig entry is not a recognised port specification (C17_ports); the machine built from an accepted configuration has the documented CPU model, the documented memory, the coprocessor units of the flag bits and one port per entry at the documented address (C17_exact); its instruction set is the data-sheet set of its model, 65C02 extensions iff 65C02 (C17_isa, C17_extensions). All over regenerated facts: allow-lists, MemSpec switch, parser order, port regexes, CPU model test, opcode table (C17_facts). Save/Load round trip trusts encoding/json and is checked by execution only.",
    technique="Lean 4 proof over regenerated configuration facts + behavioural probing differential"),
+ "C08": dict(
+   text="Lean 4 proof: with -prexec, for every machine the setup program leaves, every suite and everything its cases may do (any memory history through both views incl. bank switches and LUT edits but no TakeSnapshot, any registers, cycle counts, installed trap functions), every case in every position is handed reset registers, cycle count 0, no trap handler, zero counters on every byte of every bank and exactly the setup's memory image (C08_start, C08_independent, by induction over the suite on top of C07_restore and C06_clear_total); without -prexec the provider is a constant function of the configuration (C08_fresh). The statement lists of snapshotCpuProvider.NewCpu, newSnapshotProvider and CPU6502.Reset are regenerated from the source on every run. Tie: suites through the real caseexec.CaseExec, start machine and verdict compared between in-suite and solo runs. Modelled, not verified: that the Go fresh provider shares no memory between calls (only executed), gopher-lua.",
+   technique="Lean 4 proof by induction over suites, over regenerated provider/Reset statement lists + in-suite vs solo differential through the real case executor"),
  "C09": dict(
    text="Lean 4 proof over abstract script behaviours (any iteration count, any per-iteration behaviour of arrange / driver / assert): reported OK implies assembling, loading and script load succeeded, the driver ran to its BRK at least once (once per iteration) and every assert call made returned boolean true (C09_sound); any fault or non-true assert in a reached iteration, or an iteration count below one, implies not OK (C09_fail); verifyall succeeds iff every case passed and then prints the number of cases (C09_all, C09_count). Tie: generated Lua scripts and drivers through the real Execute / CaseExec / IterateTestCases with a fake assembler. Modelled, not verified: gopher-lua's VM and value conversions.",
    technique="Lean 4 proof over a verdict model + differential with generated Lua scripts through the real test executor"),
